@@ -146,7 +146,7 @@ pub fn c20_strategy() -> impl Strategy<Value = C20Case> {
         any::<bool>(),
     )
         .prop_map(|(timing, default_ez, kfs, start, times, advances, second_state_animated)| {
-            let mut tl = TlDesc { timing, default_ez, kfs }.sanitize();
+            let mut tl = TlDesc { timing, default_ez, kfs, order: 0 }.sanitize();
             let back = tl.uses_back();
             if back {
                 // an overshooting (Back) easing legitimately takes a value beyond its endpoints: keep the
@@ -222,7 +222,7 @@ pub fn c20_run_case(c: &C20Case, obs: &mut Obs) -> Result<u64, String> {
     // merged timeline of this timeline and a plain one: aggregate queries (they compare repeats and
     // durations) and evaluation
     {
-        let plain = TlDesc { timing: Timing { cycle: 1.0, delay: 0.0, repeat: Rep::Times(3), reverse: false }, default_ez: Ez::Linear, kfs: vec![KfDesc { pos: 1.0, a: None, b: Some(2.0), c: None, d: None, ez: None }] };
+        let plain = TlDesc { timing: Timing { cycle: 1.0, delay: 0.0, repeat: Rep::Times(3), reverse: false }, default_ez: Ez::Linear, kfs: vec![KfDesc { pos: 1.0, a: None, b: Some(2.0), c: None, d: None, ez: None }], order: 0 };
         let mut merged_opt = None;
         catch("merged build", &mut || merged_opt = Some(MergedTimeline::of([c.tl.build(), plain.build()])))?;
         let merged = merged_opt.unwrap();
@@ -246,12 +246,11 @@ pub fn c20_run_case(c: &C20Case, obs: &mut Obs) -> Result<u64, String> {
         }
     }
     // animator: build, advance with the same alphabet, query
-    let second = TlDesc { timing: Timing { cycle: 1.0, delay: 0.0, repeat: Rep::None, reverse: false }, default_ez: Ez::Linear, kfs: vec![KfDesc { pos: 1.0, a: Some(3.0), b: None, c: None, d: None, ez: None }] };
+    let second = TlDesc { timing: Timing { cycle: 1.0, delay: 0.0, repeat: Rep::None, reverse: false }, default_ez: Ez::Linear, kfs: vec![KfDesc { pos: 1.0, a: Some(3.0), b: None, c: None, d: None, ez: None }], order: 0 };
     let desc = AnimDesc {
         states: vec![Some(vec![c.tl.clone()]), if c.second_state_animated { Some(vec![second]) } else { None }, None, None, None],
         initial_state: 0,
-        initial_values: c.start.unwrap_or(Vals { a: 1.0, b: 2.0, c: 3, d: 100 }),
-    };
+        initial_values: c.start.unwrap_or(Vals { a: 1.0, b: 2.0, c: 3, d: 100 }), builder_order: 0 };
     let mut an_opt = None;
     catch("animator build", &mut || an_opt = Some(desc.build()))?;
     let mut an = an_opt.unwrap();
